@@ -32,6 +32,7 @@ type Program struct {
 	initAllow map[string]bool
 	initErrs []string
 	stubFns  map[string]string // function full name -> zzvf function that replaces it
+	goRun    []string          // substrings of callee names whose go statements run as coroutines
 }
 
 func (P *Program) info(fn *ssa.Function) *funcInfo {
@@ -159,6 +160,8 @@ type Exec struct {
 	newReach  bool
 	waitBudget int
 	onWait    Value
+	coros     []*coro
+	cur       *coro
 }
 
 type inputRec struct {
@@ -427,7 +430,7 @@ func (ex *Exec) runFrame(fr *Frame) {
 		tp, ok := r.(targetPanic)
 		if !ok {
 			switch r.(type) {
-			case pathAbort, internalCrash:
+			case pathAbort, internalCrash, coKill:
 				panic(r)
 			}
 			panic(internalCrash{r: r, stack: ex.stackStr()})
@@ -657,6 +660,9 @@ func (ex *Exec) exec(fr *Frame, in ssa.Instruction) {
 		fn, args := ex.prepareCall(fr, &x.Call)
 		fr.defers = append(fr.defers, deferred{fn: fn, args: args, instr: x})
 	case *ssa.Go:
+		if ex.spawn(fr, x) {
+			break
+		}
 		ex.skippedGo = append(ex.skippedGo, callName(&x.Call)+" @"+ex.posStr(x.Pos()))
 	case *ssa.Convert:
 		ex.set(fr, x, ex.convert(x.X.Type(), x.Type(), ex.get(fr, x.X)))
@@ -687,7 +693,7 @@ func (ex *Exec) exec(fr *Frame, in ssa.Instruction) {
 		ex.set(fr, x, &MapV{obj: o})
 	case *ssa.MakeChan:
 		ex.nextObj++
-		ex.set(fr, x, &ChanV{id: ex.nextObj})
+		ex.set(fr, x, &ChanV{id: ex.nextObj, cap: int(ex.argInt(ex.get(fr, x.Size)))})
 	case *ssa.MakeClosure:
 		bind := make([]Value, len(x.Bindings))
 		for i, b := range x.Bindings {
@@ -712,7 +718,10 @@ func (ex *Exec) exec(fr *Frame, in ssa.Instruction) {
 			ex.unsupported("slice to array pointer with offset")
 		}
 		ex.set(fr, x, s.arr)
-	case *ssa.Send, *ssa.Select:
+	case *ssa.Send:
+		ch, _ := ex.get(fr, x.Chan).(*ChanV)
+		ex.chanSend(ch, ex.get(fr, x.X))
+	case *ssa.Select:
 		ex.unsupported("channel operation %T", in)
 	default:
 		ex.unsupported("instruction %T", in)
@@ -983,6 +992,9 @@ func (ex *Exec) mapData(m *MapV, write bool) *MapData {
 			ex.rtPanic("assignment to entry in nil map")
 		}
 		return &MapData{}
+	}
+	if ex.recording {
+		ex.recordAccess(Ptr{obj: m.obj}, write) // the map as one cell (Go maps are not safe for concurrent use)
 	}
 	if write {
 		return ex.writeObj(m.obj).val.(*MapData)
